@@ -36,7 +36,7 @@ structure PropObj (T R : Type) where
   phase_scale : T
 
 /-- the attributes of the object: EVERY field of the regenerated structure -/
-def PropObj.toSelf (o : PropObj T R) : PropagatorSelf T R :=
+def PropObj.toSelf (o : PropObj T R) : PropagatorAttrs T R :=
   { device := some (), pixel_pitch := some o.pixel_pitch, wavelengths := some o.wavelengths, resolution := some o.resolution,
     propagation_type := some o.propagation_type, resolution_factor := some o.resolution_factor, number_of_frames := some o.number_of_frames,
     number_of_depth_layers := some o.number_of_depth_layers, number_of_channels := some o.number_of_channels,
@@ -154,8 +154,8 @@ structure PropArgs (T R : Type) where
 def PropArgs.rf (a : PropArgs T R) : Int := if a.propagation_type ≠ "Impulse Response Fresnel" then 1 else a.resolution_factor
 
 /-- one call of the regenerated `__init__` on an object without attributes -/
-def pInitCall (E : PropOps T R) (a : PropArgs T R) (h : Heap T) : Option (PropagatorSelf T R × Heap T × Unit × List String) :=
-  propagatorInitG E PropagatorSelf.empty h a.resolution a.wavelengths a.pixel_pitch a.resolution_factor a.number_of_frames a.number_of_depth_layers
+def pInitCall (E : PropOps T R) (a : PropArgs T R) (h : Heap T) : Option (PropagatorAttrs T R × Heap T × Unit × List String) :=
+  propagatorInitG E PropagatorAttrs.empty h a.resolution a.wavelengths a.pixel_pitch a.resolution_factor a.number_of_frames a.number_of_depth_layers
     a.volume_depth a.image_location_offset a.propagation_type a.propagator_type a.back_and_forth_distance a.laser_channel_power a.aperture
     a.aperture_size a.distances a.aperture_samples a.method ()
 
@@ -224,7 +224,7 @@ structure PRet (T : Type) where
   obj : Option Nat
 
 /-- one call of the regenerated step functions -/
-def pStep (E : PropOps T R) (s : PropagatorSelf T R × Heap T) : PCall T → Option ((PropagatorSelf T R × Heap T) × PRet T)
+def pStep (E : PropOps T R) (s : PropagatorAttrs T R × Heap T) : PCall T → Option ((PropagatorAttrs T R × Heap T) × PRet T)
   | .forward u c d => (propagatorCallG E s.1 s.2 u c d).map fun r => ((r.1, r.2.1), ⟨[r.2.2.1], none⟩)
   | .reconstruct ph amp ng gc =>
     (propagatorReconstructG E s.1 s.2 ph amp ng gc).bind fun r => (r.2.1.get r.2.2.1).map fun v => ((r.1, r.2.1), ⟨[v], some r.2.2.1⟩)
